@@ -591,6 +591,17 @@ fn gen_table(rng: &mut Rng, name: &str, existing: &[Tbl]) -> Tbl {
     t
 }
 
+/// The table as the statement's target: now and then qualified with SQLite's own schema name `main`
+/// (`ALTER TABLE "main"."t" ..` is the same table).
+fn target(rng: &mut Rng, name: &str) -> sea_query::TableRef {
+    use sea_query::IntoTableRef;
+    if rng.chance(1, 5) {
+        (Alias::new("main"), Alias::new(name)).into_table_ref()
+    } else {
+        Alias::new(name).into_table_ref()
+    }
+}
+
 fn exec_and_check(chk: &Chk, rep: &mut Report, db: &Db, model: &Model, sql: &str, what: &str) -> bool {
     rep.count("statements_executed", 1);
     rep.note("statement_kinds", what.to_string());
@@ -669,7 +680,7 @@ pub fn run_history(ctx: &Ctx, rep: &mut Report, n: u64, rng: &mut Rng, single: O
                         }
                     }
                     let c = Col { name: cname, ty, specs };
-                    let sql = Table::alter().table(Alias::new(&tname)).add_column(c.column_def()).build_any(lite());
+                    let sql = Table::alter().table(target(rng, &tname)).add_column(c.column_def()).build_any(lite());
                     model.tables[ti].cols.push(c);
                     ("ALTER TABLE ADD COLUMN", sql)
                 }
@@ -683,7 +694,7 @@ pub fn run_history(ctx: &Ctx, rep: &mut Report, n: u64, rng: &mut Rng, single: O
                     let ci = *rng.pick(&cands);
                     let old = t.cols[ci].name.clone();
                     let new = format!("r{}_{}", ci, rng.below(1000));
-                    let sql = Table::alter().table(Alias::new(&tname)).rename_column(Alias::new(&old), Alias::new(&new)).build_any(lite());
+                    let sql = Table::alter().table(target(rng, &tname)).rename_column(Alias::new(&old), Alias::new(&new)).build_any(lite());
                     let t = &mut model.tables[ti];
                     t.cols[ci].name = new.clone();
                     for ix in t.indexes.iter_mut() {
@@ -753,7 +764,7 @@ pub fn run_history(ctx: &Ctx, rep: &mut Report, n: u64, rng: &mut Rng, single: O
                     }
                     let ci = *rng.pick(&cands);
                     let name = t.cols[ci].name.clone();
-                    let sql = Table::alter().table(Alias::new(&tname)).drop_column(Alias::new(&name)).build_any(lite());
+                    let sql = Table::alter().table(target(rng, &tname)).drop_column(Alias::new(&name)).build_any(lite());
                     model.tables[ti].cols.remove(ci);
                     ("ALTER TABLE DROP COLUMN", sql)
                 }
@@ -798,7 +809,7 @@ pub fn run_history(ctx: &Ctx, rep: &mut Report, n: u64, rng: &mut Rng, single: O
                             continue;
                         }
                         let new = format!("{tname}x");
-                        let sql = Table::rename().table(Alias::new(&tname), Alias::new(&new)).build_any(lite());
+                        let sql = Table::rename().table(target(rng, &tname), Alias::new(&new)).build_any(lite());
                         model.tables[ti].name = new.clone();
                         for ix in model.indexes.iter_mut().filter(|i| i.table == tname) {
                             ix.table = new.clone();
@@ -808,8 +819,18 @@ pub fn run_history(ctx: &Ctx, rep: &mut Report, n: u64, rng: &mut Rng, single: O
                         if model.tables.iter().any(|o| o.fks.iter().any(|f| f.ref_table == tname)) {
                             continue;
                         }
+                        if rng.chance(1, 4) {
+                            // IF EXISTS on a table that is not there: must be accepted and change nothing
+                            let mut d = Table::drop();
+                            d.table(Alias::new(format!("{tname}_gone"))).if_exists();
+                            let sql = d.build_any(lite());
+                            sig_parts.push(sql.clone());
+                            if !exec_and_check(&chk, rep, &db, &model, &sql, "DROP TABLE IF EXISTS (absent)") {
+                                return;
+                            }
+                        }
                         let mut d = Table::drop();
-                        d.table(Alias::new(&tname));
+                        d.table(target(rng, &tname));
                         if rng.coin() {
                             d.if_exists();
                         }
